@@ -39,6 +39,7 @@ private def f3 (name : String) : Option (St → Nat → Nat → Nat → St) :=
   match name with
   | "as4_addmul" => some mpz_addmul
   | "as4_submul" => some mpz_submul
+  | "as4_mul" => some mpz_mul
   | _ => none
 
 private def fui (name : String) : Option (St → Nat → Nat → Nat → St) :=
